@@ -3,9 +3,11 @@ package p19
 import (
 	"fmt"
 	"runtime/debug"
+	"sort"
 	"strings"
 
 	"github.com/nyaruka/gocommon/i18n"
+	"github.com/nyaruka/gocommon/urns"
 	"github.com/nyaruka/goflow/contactql"
 	"github.com/nyaruka/goflow/envs"
 
@@ -15,13 +17,43 @@ import (
 // A URN condition in one of the surface forms ContactQL has for it.
 type urnQuery struct {
 	text  string
-	route string // scheme | urn-attribute | urns-prefix | implicit-phone | implicit-urn | whole-query-phone
+	route string // scheme | urn-attribute | urns-prefix | implicit-phone | implicit-urn | presence
 	// valued: the condition compares against a non-empty value. Presence checks (= "" / != "") are allowed by
 	// the parser under redaction (visitor.go tests value != ""), the statement is silent about them.
 	valued bool
+	op     string // comparator as written (any case); "" for implicit conditions
+	nested int    // how many AND / OR / parenthesis layers surround the condition
 }
 
-var qSchemes = []string{"tel", "twitter", "twitterid", "mailto", "facebook", "whatsapp", "telegram", "viber", "ext"}
+// every scheme the URN library knows (urns.<scheme> and <scheme> are property spellings for each of them)
+var qSchemes = func() []string {
+	var out []string
+	for _, s := range urns.Schemes {
+		out = append(out, s.Prefix)
+	}
+	sort.Strings(out)
+	return out
+}()
+
+// every comparator the grammar admits (antlr/ContactQL.g4 COMPARATOR): the symbolic ones and the word aliases
+// HAS / IS, which the lexer accepts in any letter case (contactql/visitor.go operatorAliases: has -> ~, is -> =).
+var qSymbolicOps = []string{"=", "!=", "~", ">", ">=", "<", "<="}
+var qAliasOps = []string{"has", "is"}
+
+func opClass(op string) string {
+	switch {
+	case op == "":
+		return "implicit"
+	case isAliasOp(op):
+		return "alias"
+	}
+	return "symbolic"
+}
+
+func isAliasOp(op string) bool {
+	l := strings.ToLower(op)
+	return l == "has" || l == "is"
+}
 
 func quoteQ(r *fw.Rand, v string) string {
 	if r.Bool() || strings.ContainsAny(v, " @:+()") {
@@ -31,7 +63,7 @@ func quoteQ(r *fw.Rand, v string) string {
 }
 
 func caseMix(r *fw.Rand, s string) string {
-	switch r.Intn(3) {
+	switch r.Intn(4) {
 	case 0:
 		return strings.ToUpper(s)
 	case 1:
@@ -42,6 +74,8 @@ func caseMix(r *fw.Rand, s string) string {
 			}
 		}
 		return string(b)
+	case 2:
+		return strings.ToUpper(s[:1]) + s[1:]
 	}
 	return s
 }
@@ -49,67 +83,193 @@ func caseMix(r *fw.Rand, s string) string {
 func valueFor(r *fw.Rand, scheme string) string {
 	switch scheme {
 	case "tel", "whatsapp", "viber":
-		return fw.Pick(r, []string{"+12065551212", "12065551212", "+250788123123", "2065551212", "0788123123", "1212"})
+		return fw.Pick(r, []string{"+12065551212", "12065551212", "+250788123123", "2065551212", "0788123123", "1212", "1206555"})
 	case "mailto":
 		return fw.Pick(r, []string{"foo@bar.com", "foo", "bar.com"})
-	case "twitterid", "facebook", "telegram":
+	case "twitterid", "facebook", "telegram", "instagram", "vk", "fcm":
 		return fw.Pick(r, []string{"54784326227", "1122334455", "5478"})
 	}
-	return fw.Pick(r, []string{"bobby", "nyaruka", "bob"})
+	return fw.Pick(r, []string{"bobby", "nyaruka", "bob", "U0123ABC"})
+}
+
+// condition writes PROPERTY COMPARATOR literal. The word comparators need white space before them (otherwise the
+// lexer reads one longer PROPERTY) and, before a bare value, after them.
+func condition(r *fw.Rand, prop, op, val string, quoted bool) string {
+	lit := val
+	if quoted || strings.ContainsAny(val, " @:+()") || val == "" {
+		lit = `"` + val + `"`
+		quoted = true
+	}
+	before, after := fw.Pick(r, []string{" ", "", "  ", "\t"}), fw.Pick(r, []string{" ", "", "  "})
+	if isAliasOp(op) {
+		before = fw.Pick(r, []string{" ", "  ", "\t"})
+		if !quoted || after == "" && r.Bool() {
+			after = " "
+		}
+	}
+	return prop + before + op + after + lit
+}
+
+var qFillers = []string{`name ~ "bob"`, `language = "eng"`, `age > 10`, `gender = male`, `name is bob`, `name HAS "bob"`, `created_on > "2018-01-01"`, `(age > 10 OR name = "x")`, `age != ""`, `uuid = "f7a3d1c2-0b1e-4c55-9d0e-3d6a0d2f1a11"`}
+
+// nest wraps a condition into AND / OR / implicit-AND combinations and parentheses, depth layers deep.
+func nest(r *fw.Rand, text string, depth int) string {
+	for i := 0; i < depth; i++ {
+		f := fw.Pick(r, qFillers)
+		and, or := fw.Pick(r, []string{"AND", "and", "And"}), fw.Pick(r, []string{"OR", "or", "oR"})
+		switch r.Intn(9) {
+		case 0:
+			text = f + " " + and + " " + text
+		case 1:
+			text = text + " " + and + " " + f
+		case 2:
+			text = text + " " + or + " " + f
+		case 3:
+			text = f + " " + or + " " + text
+		case 4:
+			text = "(" + text + ")"
+		case 5:
+			text = "( (" + text + ") )"
+		case 6:
+			text = "(" + f + " " + or + " " + text + ") " + and + " " + fw.Pick(r, qFillers)
+		case 7:
+			text = f + " " + text // implicit AND
+		default:
+			text = "(" + text + " " + and + " " + f + ") " + or + " (" + fw.Pick(r, qFillers) + ")"
+		}
+	}
+	return text
 }
 
 func genURNQuery(r *fw.Rand) urnQuery {
 	scheme := fw.Pick(r, qSchemes)
+	if r.Chance(0.35) {
+		scheme = fw.Pick(r, []string{"tel", "twitter", "twitterid", "mailto", "facebook", "whatsapp", "telegram"})
+	}
 	val := valueFor(r, scheme)
-	op := fw.Pick(r, []string{"=", "!=", "~"})
-	if op == "~" && len(val) < 3 {
+	var op string
+	switch r.Weighted([]int{45, 40, 15}) {
+	case 0:
+		op = fw.Pick(r, []string{"=", "!=", "~"})
+	case 1:
+		op = caseMix(r, fw.Pick(r, qAliasOps))
+	default:
+		op = fw.Pick(r, qSymbolicOps)
+	}
+	if (op == "~" || strings.EqualFold(op, "has")) && len(val) < 3 {
 		op = "="
 	}
-	sp := fw.Pick(r, []string{" ", "", "  "})
+	quoted := r.Bool()
 	var q urnQuery
 	switch r.Intn(9) {
-	case 0, 1:
-		q = urnQuery{text: caseMix(r, scheme) + sp + op + sp + quoteQ(r, val), route: "scheme", valued: true}
+	case 0, 1, 8:
+		q = urnQuery{text: condition(r, caseMix(r, scheme), op, val, quoted), route: "scheme", valued: true, op: op}
 	case 2:
-		q = urnQuery{text: caseMix(r, "urn") + sp + op + sp + quoteQ(r, val), route: "urn-attribute", valued: true}
+		q = urnQuery{text: condition(r, caseMix(r, "urn"), op, val, quoted), route: "urn-attribute", valued: true, op: op}
 	case 3, 4:
-		q = urnQuery{text: caseMix(r, "urns."+scheme) + sp + op + sp + quoteQ(r, val), route: "urns-prefix", valued: true}
+		q = urnQuery{text: condition(r, caseMix(r, "urns."+scheme), op, val, quoted), route: "urns-prefix", valued: true, op: op}
 	case 5:
 		// bare phone number: implicit condition (or whole-query rewrite)
 		v := fw.Pick(r, []string{"+12065551212", "0788123123", "12065551212", "(206) 555-1212", "+250788123123"})
 		q = urnQuery{text: v, route: "implicit-phone", valued: true}
 	case 6:
-		v := fw.Pick(r, []string{"tel:+12065551212", "twitter:bobby", "mailto:foo@bar.com", "facebook:1122334455"})
+		v := fw.Pick(r, []string{"tel:+12065551212", "twitter:bobby", "mailto:foo@bar.com", "facebook:1122334455", "telegram:5478432", "whatsapp:250788123123"})
 		q = urnQuery{text: quoteQ(r, v), route: "implicit-urn", valued: true}
-	case 7:
-		eq := fw.Pick(r, []string{"=", "!="})
-		prop := fw.Pick(r, []string{scheme, "urn", "urns." + scheme})
-		q = urnQuery{text: caseMix(r, prop) + sp + eq + sp + `""`, route: "presence", valued: false}
 	default:
-		q = urnQuery{text: caseMix(r, scheme) + sp + op + sp + quoteQ(r, val), route: "scheme", valued: true}
+		eq := fw.Pick(r, []string{"=", "!=", caseMix(r, "is")})
+		prop := fw.Pick(r, []string{scheme, "urn", "urns." + scheme})
+		q = urnQuery{text: condition(r, caseMix(r, prop), eq, "", true), route: "presence", valued: false, op: eq}
 	}
-	// embed in a combination sometimes
-	switch r.Intn(5) {
-	case 0:
-		q.text = `name ~ "bob" AND ` + q.text
-	case 1:
-		q.text = q.text + ` OR language = "eng"`
-	case 2:
-		q.text = `(` + q.text + `) AND (age > 10 OR name = "x")`
+	// embed in combinations, sometimes deeply, sometimes next to a second URN condition
+	q.nested = r.Weighted([]int{40, 30, 20, 10})
+	if q.route == "implicit-phone" && q.nested > 0 && r.Bool() {
+		q.nested = 0 // a bare phone number is also re-read when it is the whole query
+	}
+	q.text = nest(r, q.text, q.nested)
+	if q.valued && r.Chance(0.1) {
+		other := condition(r, caseMix(r, fw.Pick(r, []string{"tel", "urn", "urns.twitter"})), fw.Pick(r, []string{"=", "~", "has", "IS"}), "1206555", r.Bool())
+		q.text = q.text + fw.Pick(r, []string{" AND ", " OR ", " "}) + other
+		q.nested++
 	}
 	return q
 }
 
 var directedURNQueries = []urnQuery{
-	{`tel = "+12065551212"`, "scheme", true}, {`tel = +12065551212`, "scheme", true}, {`TEL ~ 1206`, "scheme", true}, {`tel != 123`, "scheme", true},
-	{`twitter = bobby`, "scheme", true}, {`twitterid = 54784326227`, "scheme", true}, {`mailto ~ "foo@bar.com"`, "scheme", true}, {`facebook = 1122334455`, "scheme", true},
-	{`urn ~ "1206"`, "urn-attribute", true}, {`urn = "+12065551212"`, "urn-attribute", true}, {`URN != "x"`, "urn-attribute", true},
-	{`urns.tel = "+12065551212"`, "urns-prefix", true}, {`URNS.TEL ~ 1206`, "urns-prefix", true}, {`urns.twitter = bobby`, "urns-prefix", true}, {`urns.mailto != "foo@bar.com"`, "urns-prefix", true},
-	{`+12065551212`, "implicit-phone", true}, {`0788123123`, "implicit-phone", true}, {`(206) 555-1212`, "implicit-phone", true}, {`bobby 12065551212`, "implicit-phone", true},
-	{`tel:+12065551212`, "implicit-urn", true}, {`"twitter:bobby"`, "implicit-urn", true},
-	{`name = bob OR tel = 123`, "scheme", true}, {`tel ~ 1206 AND name ~ bob`, "scheme", true}, {`name ~ bob AND (urn ~ 1206 OR age > 3)`, "urn-attribute", true},
-	{`name ~ bob AND urns.tel ~ 1206`, "urns-prefix", true},
-	{`urn = ""`, "presence", false}, {`tel != ""`, "presence", false}, {`urns.tel = ""`, "presence", false}, {`twitter = ""`, "presence", false},
+	{text: `tel = "+12065551212"`, route: "scheme", valued: true, op: "="}, {text: `tel = +12065551212`, route: "scheme", valued: true, op: "="}, {text: `TEL ~ 1206`, route: "scheme", valued: true, op: "~"}, {text: `tel != 123`, route: "scheme", valued: true, op: "!="},
+	{text: `twitter = bobby`, route: "scheme", valued: true, op: "="}, {text: `twitterid = 54784326227`, route: "scheme", valued: true, op: "="}, {text: `mailto ~ "foo@bar.com"`, route: "scheme", valued: true, op: "~"}, {text: `facebook = 1122334455`, route: "scheme", valued: true, op: "="},
+	{text: `urn ~ "1206"`, route: "urn-attribute", valued: true, op: "~"}, {text: `urn = "+12065551212"`, route: "urn-attribute", valued: true, op: "="}, {text: `URN != "x"`, route: "urn-attribute", valued: true, op: "!="},
+	{text: `urns.tel = "+12065551212"`, route: "urns-prefix", valued: true, op: "="}, {text: `URNS.TEL ~ 1206`, route: "urns-prefix", valued: true, op: "~"}, {text: `urns.twitter = bobby`, route: "urns-prefix", valued: true, op: "="}, {text: `urns.mailto != "foo@bar.com"`, route: "urns-prefix", valued: true, op: "!="},
+	{text: `+12065551212`, route: "implicit-phone", valued: true}, {text: `0788123123`, route: "implicit-phone", valued: true}, {text: `(206) 555-1212`, route: "implicit-phone", valued: true}, {text: `bobby 12065551212`, route: "implicit-phone", valued: true, nested: 1},
+	{text: `tel:+12065551212`, route: "implicit-urn", valued: true}, {text: `"twitter:bobby"`, route: "implicit-urn", valued: true},
+	{text: `name = bob OR tel = 123`, route: "scheme", valued: true, op: "=", nested: 1}, {text: `tel ~ 1206 AND name ~ bob`, route: "scheme", valued: true, op: "~", nested: 1}, {text: `name ~ bob AND (urn ~ 1206 OR age > 3)`, route: "urn-attribute", valued: true, op: "~", nested: 2},
+	{text: `name ~ bob AND urns.tel ~ 1206`, route: "urns-prefix", valued: true, op: "~", nested: 1},
+	{text: `urn = ""`, route: "presence", op: "="}, {text: `tel != ""`, route: "presence", op: "!="}, {text: `urns.tel = ""`, route: "presence", op: "="}, {text: `twitter = ""`, route: "presence", op: "="},
+}
+
+// operatorGrid is the directed sweep of the query-rejection clause: every comparator spelling the grammar admits
+// (symbolic; HAS / IS in every letter case) x every URN property spelling (each scheme, urn, urns.<scheme>; lower,
+// upper and mixed case) x quoted / bare value x {alone, AND, OR, parenthesised, nested}.
+func operatorGrid() []urnQuery {
+	var ops []string
+	ops = append(ops, qSymbolicOps...)
+	for _, w := range qAliasOps {
+		// every letter-case spelling of the word
+		for mask := 0; mask < 1<<len(w); mask++ {
+			b := []byte(w)
+			for i := range b {
+				if mask&(1<<i) != 0 {
+					b[i] -= 32
+				}
+			}
+			ops = append(ops, string(b))
+		}
+	}
+	type prop struct{ text, route, scheme string }
+	var props []prop
+	spell := func(s string, i int) string {
+		switch i % 3 {
+		case 1:
+			return strings.ToUpper(s)
+		case 2:
+			return strings.ToUpper(s[:1]) + s[1:len(s)-1] + strings.ToUpper(s[len(s)-1:])
+		}
+		return s
+	}
+	for i, s := range qSchemes {
+		props = append(props, prop{spell(s, i), "scheme", s}, prop{spell("urns."+s, i+1), "urns-prefix", s})
+	}
+	for i := 0; i < 3; i++ {
+		props = append(props, prop{spell("urn", i), "urn-attribute", "tel"})
+	}
+	wraps := []func(string) (string, int){
+		func(c string) (string, int) { return c, 0 },
+		func(c string) (string, int) { return `name ~ "bob" AND ` + c, 1 },
+		func(c string) (string, int) { return c + ` or language = "eng"`, 1 },
+		func(c string) (string, int) { return `(` + c + `)`, 1 },
+		func(c string) (string, int) { return `age > 10 AND (name = "x" OR (` + c + `))`, 3 },
+		func(c string) (string, int) { return `name is bob ` + c, 1 },
+	}
+	var out []urnQuery
+	n := 0
+	for _, p := range props {
+		for _, op := range ops {
+			val := map[string]string{"tel": "1206555", "whatsapp": "250788123", "viber": "250788123", "mailto": "foo@bar.com", "twitterid": "54784326", "facebook": "11223344", "telegram": "54784326"}[p.scheme]
+			if val == "" {
+				val = "bobby"
+			}
+			for _, quoted := range []bool{false, true} {
+				lit := val
+				if quoted || strings.ContainsAny(val, "@") {
+					lit = `"` + val + `"`
+				}
+				w := wraps[n%len(wraps)]
+				n++
+				text, depth := w(p.text + " " + op + " " + lit)
+				out = append(out, urnQuery{text: text, route: p.route, valued: true, op: op, nested: depth})
+			}
+		}
+	}
+	return out
 }
 
 // valuedURNConditions lists the conditions of a parsed query that compare a URN against a non-empty value.
@@ -176,6 +336,17 @@ func checkQueries(res *fw.Result, r *fw.Rand, qs []urnQuery) {
 		}
 		res.Count("clause.query_rejected", 1)
 		res.Count("clause.query_rejected."+q.route, 1)
+		res.Count("clause.query_rejected.operator_"+opClass(q.op), 1)
+		if q.op != "" {
+			res.Seen("query_operators", strings.ToLower(q.op))
+			res.Seen("query_operator_spellings", q.op)
+		}
+		if q.nested > 0 {
+			res.Count("clause.query_rejected.nested", 1)
+		}
+		if q.nested >= 2 {
+			res.Count("clause.query_rejected.nested_deep", 1)
+		}
 		if errR != nil {
 			code := ""
 			if isQ, qe := contactql.IsQueryError(errR); isQ {
@@ -190,8 +361,8 @@ func checkQueries(res *fw.Result, r *fw.Rand, qs []urnQuery) {
 			res.Count("query.reinterpreted_without_urn", 1)
 			continue
 		}
-		res.Violate("C19|query-accepted|"+q.route,
+		res.Violate("C19|query-accepted|"+q.route+"|"+opClass(q.op)+"-operator",
 			fmt.Sprintf("under redaction policy urns ParseQuery accepts %q as %q: a condition on a URN value", q.text, pr.String()),
-			map[string]any{"query": q.text, "route": q.route, "default_country": string(country), "parsed_under_urns": pr.String(), "urn_conditions": condsR, "parsed_under_none": pn.String()})
+			map[string]any{"query": q.text, "route": q.route, "operator": q.op, "nesting": q.nested, "default_country": string(country), "parsed_under_urns": pr.String(), "urn_conditions": condsR, "parsed_under_none": pn.String()})
 	}
 }
